@@ -2,6 +2,7 @@ package otto
 
 import (
 	"bytes"
+	"math"
 	"regexp"
 	"strconv"
 	"strings"
@@ -119,24 +120,21 @@ func builtinStringLastIndexOf(call FunctionCall) Value {
 	checkObjectCoercible(call.runtime, call.This)
 	value := call.This.string()
 	target := call.Argument(0).string()
-	if 2 > len(call.ArgumentList) || call.ArgumentList[1].IsUndefined() {
-		return intValue(lastIndexRune(value, target))
-	}
+	// ES5 15.5.4.8 steps 4-7: numPos = ToNumber(position); NaN (which covers undefined)
+	// means +Infinity; start = min(max(ToInteger(numPos), 0), length).
 	length := len(value)
-	if length == 0 {
-		return intValue(lastIndexRune(value, target))
+	start := length
+	if pos := call.Argument(1).float64(); !math.IsNaN(pos) {
+		switch {
+		case pos < 1:
+			start = 0
+		case pos < float64(length):
+			start = int(pos)
+		}
 	}
-	start := call.ArgumentList[1].number()
-	if start.kind == numberInfinity { // FIXME
-		// startNumber is infinity, so start is the end of string (start = length)
-		return intValue(lastIndexRune(value, target))
-	}
-	if 0 > start.int64 {
-		start.int64 = 0
-	}
-	end := int(start.int64) + len(target)
-	if end > length {
-		end = length
+	end := length
+	if start < length-len(target) {
+		end = start + len(target)
 	}
 	return intValue(lastIndexRune(value[:end], target))
 }
